@@ -41,6 +41,9 @@ FIXED = {'meson-private': 'P', 'meson-info': 'J', 'meson-private/coredata.dat': 
          'meson-private/build.dat': 'b', 'meson-private/cmd_line.txt': 'm', 'meson-private/cmd_line.txt~': 'n',
          'build.ninja': 'N', 'build.ninja~': 'M', 'meson-info/tmp_dump.json': 'T'}
 STYLES = {'plain': 'd%07d', 'bracket': 'd[%05d]', 'space': 'd %06d', 'utf8': 'd\u00e9%05d'}
+# a machine file that carries option values, and the edit applied to it / to the project's declared defaults by an 'E' event
+NATIVE_INI = "[built-in options]\nwarning_level = '3'\n\n[project options]\nc = 'two'\n"
+NATIVE_INI_EDITED = "[built-in options]\nwarning_level = '2'\n\n[project options]\nc = 'three'\n"
 NATIVE_FILE_TEXT = "[properties]\nverif_marker = 'from a pipe'\n"
 KINDCH = {'mkdir': 'K', 'fsync': 'F', 'unlink': 'U', 'rmdir': 'X', 'write': 'W'}
 
@@ -59,7 +62,7 @@ def ev_wire(ev):
     if kind == 'X':
         return '\x01'.join(['X', D, order, ''])
     # 'N' = first setup with a machine file read from a pipe: the model knows no machine files, to it this is a setup
-    return '\x01'.join(['S' if kind == 'N' else kind, d_wire(D), ','.join(order or []), '' if kill is None else str(kill)])
+    return '\x01'.join(['S' if kind in 'NM' else kind, d_wire(D), ','.join(order or []), '' if kill is None else str(kill)])
 
 
 def cmd_args(kind, D, bdir, src):
@@ -67,6 +70,8 @@ def cmd_args(kind, D, bdir, src):
         return ['setup', bdir, src] + d_args(D)
     if kind == 'N':
         return ['setup', bdir, src, '--native-file', '/dev/stdin'] + d_args(D)
+    if kind == 'M':
+        return ['setup', bdir, src, '--native-file', os.path.join(src, 'native.ini')] + d_args(D)
     if kind == 'R':
         return ['setup', '--reconfigure', bdir, src] + d_args(D)
     if kind == 'W':
@@ -75,6 +80,8 @@ def cmd_args(kind, D, bdir, src):
 
 
 def cmd_text(kind, D):
+    if kind == 'E':
+        return '(the project is edited: meson.options default of i 3->7, default_options += warning_level=2, machine file values changed)'
     return ' '.join(cmd_args(kind, D, 'B', 'S')).replace(LONG, '<9001 chars>')
 
 
@@ -92,9 +99,20 @@ class Lab:
         open(os.path.join(self.src, 'meson.options'), 'w').write(MESON_OPTIONS)
         open(os.path.join(self.src, 'subprojects', 'sub', 'meson.build'), 'w').write(SUB_BUILD)
         open(os.path.join(self.src, 'subprojects', 'sub', 'meson.options'), 'w').write(SUB_OPTIONS)
+        self.srcs = {}
         self.nd = 0
         self.dat_names, self.info_names, self.cinfo = [], [], []
         self.strace_runs = 0
+
+    def src_for(self, tag):
+        """a private copy of the project (for scenarios that edit the project between two commands)"""
+        if not tag:
+            return self.src
+        if tag not in self.srcs:
+            d = os.path.join(self.root, 'src_' + tag)
+            shutil.copytree(self.src, d)
+            self.srcs[tag] = d
+        return self.srcs[tag]
 
     def area(self, tag):
         assert len(tag) == 6, tag       # relocate() needs equal path lengths
@@ -162,12 +180,13 @@ class Lab:
                 toks.append([t, i, i])
         return toks
 
-    def record(self, base, kind, D, area, style='plain'):
+    def record(self, base, kind, D, area, style='plain', src=None):
+        src = src or self.src
         """Two recording runs of the command on copies of base: the first finds the paths the command
         touches, the second (with -P for exactly those paths) yields the kill points and the counters."""
         a = self.newdir(area, style)
         self._copy(base, a)
-        r = T.run_traced(a + '.log', cmd_args(kind, D, a, self.src), self.pyc)
+        r = T.run_traced(a + '.log', cmd_args(kind, D, a, src), self.pyc)
         self.strace_runs += 1
         evs = T.parse_log(a + '.log')
         rel = set()
@@ -180,7 +199,7 @@ class Lab:
         toks1 = [t[0] for t in self.tokens(evs, a)]
         b = self.newdir(area, style)
         self._copy(base, b)
-        r2 = T.run_traced(b + '.log', cmd_args(kind, D, b, self.src), self.pyc, pfiles=self.pfiles(b, rel))
+        r2 = T.run_traced(b + '.log', cmd_args(kind, D, b, src), self.pyc, pfiles=self.pfiles(b, rel))
         self.strace_runs += 1
         evs2 = T.parse_log(b + '.log')
         toks = self.tokens(evs2, b)
@@ -208,11 +227,12 @@ class Lab:
             return          # fresh: the directory does not exist yet
         T.relocate(base, dst)
 
-    def kill(self, base, kind, D, rec, pt, area, style='plain'):
+    def kill(self, base, kind, D, rec, pt, area, style='plain', src=None):
+        src = src or self.src
         """Run the command on a fresh copy of base, killed on entry to point pt."""
         d = self.newdir(area, style)
         self._copy(base, d)
-        r = T.run_traced(d + '.log', cmd_args(kind, D, d, self.src), self.pyc, pfiles=self.pfiles(d, rec['rel']),
+        r = T.run_traced(d + '.log', cmd_args(kind, D, d, src), self.pyc, pfiles=self.pfiles(d, rec['rel']),
                          inject=(pt['sys'], pt['m']))
         self.strace_runs += 1
         evs = T.parse_log(d + '.log')
@@ -224,9 +244,9 @@ class Lab:
         stable = toks[:k] == rec['tokens'][:k] and (len(toks) == k or (len(toks) == k + 1 and toks[k][0] == 'W' and toks[k] == rec['tokens'][k]))
         return {'dir': d, 'hit': hit, 'stable': stable, 'rc': r.returncode}
 
-    def followup(self, d):
+    def followup(self, d, src=None):
         conf = os.path.exists(os.path.join(d, 'meson-private', 'coredata.dat'))
-        r = T.meson(['setup'] + (['--reconfigure'] if conf else []) + [d, self.src], self.pyc)
+        r = T.meson(['setup'] + (['--reconfigure'] if conf else []) + [d, src or self.src], self.pyc)
         out = r.stdout + r.stderr
         if r.returncode == 0:
             cls = 'ok'
@@ -293,7 +313,17 @@ def scenarios(thorough, rng):
     S.append(('configured/wipe-D', conf, ('W', [(1, 1), (0, 2)])))
     # an earlier kill left coredata.dat (s=hello) and cmd_line.txt (s=new) disagreeing; --wipe -Ds=v3 on that (known finding)
     S.append(('killed-configure(cmd_line updated)/wipe-D', conf + [('C', [(0, 2)], None, 3)], ('W', [(0, 3)])))
+    # the project's DECLARED defaults (meson.options default, project(default_options:), machine file contents) are edited
+    # after the first setup: coredata.dat then holds values that cmd_line.txt + the current project cannot reproduce
+    S.append(('edited-defaults/reconfigure', conf + [('E', [], None, None)], ('R', [(1, 1)])))
+    S.append(('edited-defaults/configure', conf + [('E', [], None, None)], ('C', [(1, 1)]), 'bracket'))
+    S.append(('machine-file-values/wipe', [('M', [(0, 1)], None, None)], ('W', [])))
+    # a directory that a killed --wipe left without coredata.dat but with cmd_line.txt: what a first setup stores and records
+    S.append(('killed-wipe(coredata gone)/setup', conf + [('W', [], None, 'core-gone')], ('S', [(1, 2)])))
     if thorough:
+        S.append(('machine-file-values-edited/reconfigure', [('M', [(0, 1)], None, None), ('E', [], None, None)], ('R', [(0, 2)]), 'space'))
+        S.append(('machine-file-values-edited/configure', [('M', [(0, 1)], None, None), ('E', [], None, None)], ('C', [(0, 2)])))
+        S.append(('edited-defaults/wipe', conf + [('E', [], None, None)], ('W', [])))
         S.append(('configured/configure-same-value', conf, ('C', [(0, 1)])))
         S.append(('configured/setup-D (already configured: acts as configure)', conf, ('S', [(2, 1)])))
         S.append(('configured+configure/reconfigure', conf2, ('R', [(3, 2), (4, 2)])))
@@ -310,7 +340,6 @@ def scenarios(thorough, rng):
         # directories left behind by an earlier kill
         S.append(('killed-first-setup(after coredata)/reconfigure', [('S', [(0, 1)], None, 6)], ('R', [(1, 1)])))
         S.append(('killed-first-setup(before coredata)/setup', [('S', [(0, 1)], None, 4)], ('S', [(1, 1)])))
-        S.append(('killed-wipe(coredata gone)/setup', conf + [('W', [], None, 'core-gone')], ('S', [(1, 2)])))
         S.append(('killed-configure(cmd_line updated)/reconfigure', conf + [('C', [(0, 2)], None, 3)], ('R', [])))
         S.append(('reconfigured-twice/configure', conf + [('R', [(2, 2)], None, None), ('R', [(0, 3)], None, None)], ('C', [(2, 1)])))
     # seeded random scenarios: random history of completed commands, random command, random -D lists
@@ -352,29 +381,50 @@ DAMAGE = [
 CODE2REL = {v: k for k, v in FIXED.items()}
 
 
+def edit_project(src):
+    """edit what the project DECLARES: meson.options default of i (3 -> 7), project(default_options:) gains
+    warning_level=2, the machine file (if the history uses one) changes both of its values"""
+    p = os.path.join(src, 'meson.options')
+    t = open(p).read()
+    assert "value: 3," in t
+    open(p, 'w').write(t.replace("value: 3,", "value: 7,"))
+    p = os.path.join(src, 'meson.build')
+    t = open(p).read()
+    assert "['optimization=1']" in t
+    open(p, 'w').write(t.replace("['optimization=1']", "['optimization=1', 'warning_level=2']"))
+    p = os.path.join(src, 'native.ini')
+    if os.path.exists(p):
+        open(p, 'w').write(NATIVE_INI_EDITED)
+
+
 class Runner:
     def __init__(self, ctx, lab):
         self.ctx, self.lab = ctx, lab
         self.bases = {}          # history key -> (dir, wire events)
         self.hn = 0
 
-    def build_history(self, hist, style='plain'):
+    def build_history(self, hist, style='plain', srctag=''):
         """Apply the events to a fresh directory.  -> (base dir or None, [wire events]) ; cached on prefixes."""
-        key = style + json.dumps(hist)
+        key = style + '|' + srctag + '|' + json.dumps(hist)
         if key in self.bases:
             return self.bases[key]
         lab = self.lab
         if not hist:
             self.bases[key] = (None, [])
             return self.bases[key]
-        pdir, pw = self.build_history(hist[:-1], style)
+        pdir, pw = self.build_history(hist[:-1], style, srctag)
+        src = lab.src_for(srctag)
         self.hn += 1
         area = lab.area('h%05d' % self.hn)
         d = lab.newdir(area, style)
         if pdir is not None:
             T.relocate(pdir, d)
         kind, D, _, kill = hist[-1]
-        if kind == 'X':
+        if kind == 'E':
+            # the project's declared defaults change under the configured directory (not a meson command: no model event)
+            edit_project(src)
+            w = pw
+        elif kind == 'X':
             p = os.path.join(d, CODE2REL[D])
             if _ == 'T':
                 open(p, 'w').close()
@@ -384,14 +434,16 @@ class Runner:
         elif kill is None:
             order = None
             if kind == 'W':
-                rec = lab.record(pdir, kind, D, area, style)
+                rec = lab.record(pdir, kind, D, area, style, src)
                 order = rec['order']
-            r = T.meson(cmd_args(kind, D, d, lab.src), lab.pyc, stdin_text=NATIVE_FILE_TEXT if kind == 'N' else None)
+            if kind == 'M':
+                open(os.path.join(src, 'native.ini'), 'w').write(NATIVE_INI)
+            r = T.meson(cmd_args(kind, D, d, src), lab.pyc, stdin_text=NATIVE_FILE_TEXT if kind == 'N' else None)
             if r.returncode != 0:
                 raise HarnessError('history command failed: %s\n%s' % (cmd_text(kind, D), (r.stdout + r.stderr)[-800:]))
             w = pw + [ev_wire((kind, D, order, None))]
         else:
-            rec = lab.record(pdir, kind, D, area, style)
+            rec = lab.record(pdir, kind, D, area, style, src)
             if kill == 'core-gone':
                 # the first kill point after coredata.dat has been unlinked
                 kill = rec['tokens'].index('Uc') + 1
@@ -400,7 +452,7 @@ class Runner:
                 raise HarnessError('no kill point with model index %s in %s' % (kill, cmd_text(kind, D)))
             if pdir is not None:
                 shutil.rmtree(d)
-            d2 = lab.kill(pdir, kind, D, rec, pts[0], area, style)
+            d2 = lab.kill(pdir, kind, D, rec, pts[0], area, style, src)
             if not d2['hit']:
                 raise HarnessError('kill point missed while building a history')
             d = d2['dir']
@@ -444,11 +496,13 @@ def do_replay(ctx):
     run = Runner(ctx, lab)
     hist = [tuple(e) for e in r['history']]
     hist = [(e[0], [tuple(x) for x in e[1]] if e[0] != 'X' else e[1], e[2], e[3]) for e in hist]
-    base, hw = run.build_history(hist, r.get('style', 'plain'))
+    srctag = 'p000' if r.get('private_project_copy') else ''
+    src = lab.src_for(srctag)
+    base, hw = run.build_history(hist, r.get('style', 'plain'), srctag)
     kind, D = r['command'][0], [tuple(x) for x in r['command'][1]]
     area = lab.area('replay')
     style = r.get('style', 'plain')
-    rc = lab.record(base, kind, D, area, style)
+    rc = lab.record(base, kind, D, area, style, src)
     if r.get('j') == -1:
         print('command        :', cmd_text(kind, D), ' (NOT killed) in a directory named like %r -> exit %s' % (STYLES[style] % 1, rc['rc1']))
         for l in [l for l in rc['out1'].strip().split('\n') if l.strip()][-4:]:
@@ -460,12 +514,12 @@ def do_replay(ctx):
         print('kill point not found in this tree; points are:', [p['what'] for p in rc['points']][:80])
         ctx.cleanup()
         return 1
-    kd = lab.kill(base, kind, D, rc, pts[0], area, style)
+    kd = lab.kill(base, kind, D, rc, pts[0], area, style, src)
     print('command        :', cmd_text(kind, D), ' killed on entry to', pts[0]['what'], '(hit=%s)' % kd['hit'])
     refs = sorted({r['ninja'] for r in lab.classify([x for x in (base, rc['full_dir']) if x], []) if r.get('ninja')})
     pre = lab.classify([kd['dir']], refs)[0]
     print('state files    :', pre['state'])
-    f = lab.followup(kd['dir'])
+    f = lab.followup(kd['dir'], src)
     post = lab.classify([kd['dir']], [])[0]
     print('follow-up      : meson setup%s -> exit %d (%s)' % (' --reconfigure' if f['followup'] == 'reconfigure' else '', f['rc'], f['cls']))
     for t in f['tail']:
@@ -507,15 +561,18 @@ def run(ctx):
     for sc in scs:
         sid, hist, (kind, D) = sc[:3]
         style = sc[3] if len(sc) > 3 else 'plain'
-        base, hw = runner.build_history(hist, style)
+        # histories that edit the project or use a machine file get a private copy of the project
+        srctag = ('p%03d' % len(jobs)) if any(e[0] in 'ME' for e in hist) else ''
+        base, hw = runner.build_history(hist, style, srctag)
         jobs.append({'id': sid + ('' if style == 'plain' else ' [%s directory name]' % style), 'hist': hist, 'hw': hw, 'base': base,
-                     'kind': kind, 'D': D, 'style': style})
+                     'kind': kind, 'D': D, 'style': style, 'srctag': srctag, 'src': lab.src_for(srctag),
+                     'unmodelled_values': bool(srctag)})
     ctx.extra['history_build_s'] = round(time.time() - t0, 1)
 
     # --- recordings (parallel)
     def rec_job(jb):
         jb['area'] = lab.area('s' + hashlib.sha1(jb['id'].encode()).hexdigest()[:5])
-        jb['rec'] = lab.record(jb['base'], jb['kind'], jb['D'], jb['area'], jb['style'])
+        jb['rec'] = lab.record(jb['base'], jb['kind'], jb['D'], jb['area'], jb['style'], jb['src'])
         return jb
     pmap(rec_job, jobs)
     env_w = lab.env_wire()
@@ -529,6 +586,11 @@ def run(ctx):
         pts = select_points(rec['points'], thorough)
         if not thorough:
             pts = thin_info(pts)
+            if jb['id'].startswith('killed-wipe(coredata gone)/setup'):
+                pts = [p for p in pts if p['j'] == 0 or 'cmd_line' in p['target'] or 'coredata.dat' == os.path.basename(p['target'])]
+            if jb['id'].startswith('edited-defaults'):
+                # quick tier: everything around coredata.dat (the file these scenarios are about) + a sample of the rest
+                pts = [p for n, p in enumerate(pts) if p['j'] == 0 or 'coredata' in p['target'] or n % 6 == 0]
             if jb['id'].startswith('machine-file'):
                 pts = [p for n, p in enumerate(pts) if p['j'] == 0 or n % 5 == 0]
             if jb['id'].startswith('random'):
@@ -548,7 +610,7 @@ def run(ctx):
     # --- kill runs (parallel), crashed-state classification, follow-ups, post classification
     def kill_job(x):
         jb, p = x
-        return lab.kill(jb['base'], jb['kind'], jb['D'], jb['rec'], p, jb['area'], jb['style'])
+        return lab.kill(jb['base'], jb['kind'], jb['D'], jb['rec'], p, jb['area'], jb['style'], jb['src'])
     t1 = time.time()
     kres = pmap(kill_job, kills)
     # complete runs as the "new" reference: follow-up on the recording's directory
@@ -558,7 +620,7 @@ def run(ctx):
     pre = lab.classify([k['dir'] for k in kres], ninja_refs)
     ctx.extra['kill_runs_s'] = round(time.time() - t1, 1)
     t2 = time.time()
-    fres = pmap(lambda d: lab.followup(d), [k['dir'] for k in kres] + full_dirs)
+    fres = pmap(lambda x: lab.followup(x[0], x[1]), [(k['dir'], kills[i][0]['src']) for i, k in enumerate(kres)] + [(jb['rec']['full_dir'], jb['src']) for jb in jobs])
     post = lab.classify([k['dir'] for k in kres] + full_dirs, ninja_refs + [])
     # build.ninja after a follow-up is a new complete file: accept any content there
     ctx.extra['followups_s'] = round(time.time() - t2, 1)
@@ -580,6 +642,9 @@ def run(ctx):
         ctx.count((jb['id'], obs['state']), nontrivial=(obs['state'] != base_state))
         if not kres[i]['stable'] or jb['rec']['tokens'] != jb['rec']['tokens1']:
             unstable += 1
+            continue
+        if jb['unmodelled_values']:
+            # option values come from a machine file / edited declared defaults: outside the model; op sequence + oracle only
             continue
         model_cases.append(('crash', [env_w, '\x02'.join(jb['hw']), jb['cmd_wire'], str(p['k']), KEYS_WIRE]))
         model_meta.append(('crash', jb, obs))
@@ -645,7 +710,7 @@ def run(ctx):
     for jb, fl in zip(jobs, fails):
         hist_txt = '; '.join((cmd_text(e[0], e[1]) + (' (killed at mutation %s)' % e[3] if e[3] is not None else '')) if e[0] != 'X'
                              else 'damage ' + e[1] for e in jb['hist']) or 'empty directory'
-        replay_base = {'history': jb['hist'], 'command': [jb['kind'], jb['D']], 'style': jb['style'],
+        replay_base = {'history': jb['hist'], 'command': [jb['kind'], jb['D']], 'style': jb['style'], 'private_project_copy': bool(jb['srctag']),
                        'build_directory_name_like': STYLES[jb['style']] % 1}
         if jb['rec']['rc1'] != 0:
             ctx.violation('C09:command-fails:' + jb['id'],
@@ -679,8 +744,17 @@ def run(ctx):
             # that finding only when the model predicts exactly the implementation's answer at these points.
             earlier_kill = any(e[0] != 'X' and e[3] is not None for e in jb['hist'])
             agrees = built and all((jb['id'], x['ident'].split('@', 1)[1]) not in disagreeing for x in fs)
+            # the recorded finding: after a killed --wipe (coredata.dat gone, cmd_line.txt kept) the plain `meson setup`
+            # applies the recorded -D options but NOT the recorded machine files.  Classified as that finding only when the
+            # history configured the directory with a machine file, the command is --wipe and coredata.dat is absent
+            # at every failing kill point.
+            st_of = {o['j']: o['state'] for o in jb.get('obs', [])}
+            core_gone = all(' c=A ' in (' ' + st_of.get(x['j'], '') + ' ') for x in fs)
             if kind == 'neither-old-nor-new' and earlier_kill and jb['kind'] == 'W' and jb['D'] and agrees:
                 ident = 'C09:neither-old-nor-new:wipe-with-options-after-a-killed-command'
+            elif kind == 'neither-old-nor-new' and jb['kind'] == 'W' and any(e[0] == 'M' for e in jb['hist']) and core_gone \
+                    and key in ('c', 'warning_level'):
+                ident = 'C09:neither-old-nor-new:machine-file-not-applied-by-setup-after-a-killed-wipe'
             else:
                 ident = 'C09:%s:%s%s' % (kind, jb['id'], (':' + key) if key else '')
             ctx.violation(ident, what, dict(replay_base, j=f['j'], what=what_pt, failure=f,
